@@ -345,6 +345,36 @@ def rsa_verify(n, e, sig, digest, hname, pss):
     return h(b"\x00" * 8 + digest + db[-slen:]).digest() == hh
 
 
+def rsa_sign(n, e, d, digest, hname, pss, salt=b"", mgf_hname=None):
+    """RFC 8017 signature generation (RSASSA-PKCS1-v1_5 / RSASSA-PSS with the given salt, MGF1 over mgf_hname or hname)."""
+    k = (n.bit_length() + 7) // 8
+    h = HASHES[hname]
+    if not pss:
+        t = tlv(0x30, tlv(0x30, tlv(6, bytes.fromhex(HASH_OID[hname])) + tlv(5, b"")) + tlv(4, digest))
+        em = b"\x00\x01" + b"\xff" * (k - len(t) - 3) + b"\x00" + t
+        return pow(int.from_bytes(em, "big"), d, n).to_bytes(k, "big")
+    embits = n.bit_length() - 1
+    emlen = (embits + 7) // 8
+    hh = h(b"\x00" * 8 + digest + salt).digest()
+    db = b"\x00" * (emlen - len(salt) - len(hh) - 2) + b"\x01" + salt
+    masked = bytes(a ^ b for a, b in zip(db, mgf1(hh, len(db), HASHES[mgf_hname or hname])))
+    top = 8 * emlen - embits
+    masked = bytes([masked[0] & (0xFF >> top)]) + masked[1:]
+    em = masked + hh + b"\xbc"
+    return pow(int.from_bytes(em, "big"), d, n).to_bytes(k, "big")
+
+
+def ecdsa_sign(c, d, digest, k):
+    """FIPS 186-4 ECDSA with the given nonce k -> (r, s) or None"""
+    n = c["n"]
+    R = mul(c, k, (c["gx"], c["gy"]))
+    if R is None:
+        return None
+    r = R[0] % n
+    s = pow(k, -1, n) * (hash_to_int(c, digest) + r * d) % n
+    return (r, s) if r and s else None
+
+
 # ------------------------------------------------------------------------------------------ openssl CLI
 def openssl(args, workdir, files=None, timeout=30):
     for name, data in (files or {}).items():
@@ -387,3 +417,17 @@ def openssl_private_numbers(workdir, blob, is_pem, password):
         return None
     der = open(os.path.join(workdir, "o_key.der"), "rb").read()
     return parse_pkcs8(der)
+
+
+def openssl_sign(workdir, private_pem, msg, hname, pss=False, mgf1_hname=None):
+    """sign with the openssl tool (private key given as unencrypted PEM) -> signature bytes or None"""
+    args = ["dgst", "-" + hname, "-sign", "o_prv.pem", "-out", "o_sig.out"]
+    if pss:
+        args += ["-sigopt", "rsa_padding_mode:pss", "-sigopt", "rsa_pss_saltlen:digest"]
+        if mgf1_hname:
+            args += ["-sigopt", "rsa_mgf1_md:" + mgf1_hname]
+    args += ["o_msg.bin"]
+    rc, out, err = openssl(args, workdir, {"o_prv.pem": private_pem, "o_msg.bin": msg})
+    if rc != 0:
+        return None
+    return open(os.path.join(workdir, "o_sig.out"), "rb").read()
